@@ -43,7 +43,7 @@ ASSUMPTIONS = [
 
 
 def _mc_jobs(ctx):
-    good = ['star2', 'three0'] if ctx.quick else ['full2', 'star2', 'three0', 'three1']
+    good = ['star2', 'three0'] if ctx.quick else ['full2', 'star2', 'three0', 'three1', 'star3']
     jobs = [('repaired/' + scn, scn, (), ['InvReserve', 'InvNoCrash']) for scn in good]
     jobs.append(('defect:trait_uses_cpu', 'defect', ('trait_uses_cpu',), ['InvNoCrash']))
     jobs.append(('defect:update_checks_request', 'defect', ('update_checks_request',),
@@ -55,9 +55,9 @@ def _mc_one(ctx, job):
     _name, scn, defects, invs = job
     tag = ('_' + '_'.join(defects)) if defects else ''
     mod, cfg, files = rc.mc_files(scn, tag=tag, defects=defects, invariants=invs)
-    big = scn in ('full2', 'star2', 'three1')
+    workers = {'star3': 10, 'three1': 6, 'full2': 4, 'star2': 8 if ctx.quick else 3}.get(scn, 1)
     return tlc.mc(rc.SPEC_DIR, mod, cfg, extra_files=files, coverage=False,
-                  workers=(8 if big else 1), heap='3g', timeout=150 if ctx.quick else 800)
+                  workers=workers, heap='4g', timeout=150 if ctx.quick else 780)
 
 
 GEN_SOURCES = [('star3', 0), ('three1', 0), ('three1', 1), ('full2', 0)]
@@ -202,3 +202,53 @@ def replay(ctx, path):
     hist = [(ev, tuple(ident), r) for ev, ident, r in payload['history']]
     traces = rc.record([('replay', 'replay', table, hist)])
     return _validate_and_judge(ctx, traces)
+
+
+def selftest(ctx):
+    """DESIGN.md 4.4: (a) corrupt one logged field of a clean trace -> TLC must
+    name the clause; (b) code mutants -> the check must exit 1."""
+    import copy
+    from .. import selftest_util
+    Q, pct = rc.Q, rc.pct
+
+    def req(cpu, traits=None):
+        return dict(part='p1', tg=traits is not None, traits=traits or [],
+                    **Q(pct(cpu), (1, 'G'), (1024, 'M')))
+    a1, a2 = ('t1/a1', 'c1'), ('t1/a2', 'c1')
+    hist = [('Create', a1, req(100)), ('Create', a2, req(300)), ('Update', a1, req(200)),
+            ('Delete', a1, None)]
+    base = rc.record([('selftest', 'selftest', rc.T_LIMITS, hist)])[0]
+    if [l['out'] for l in base['lines'][1:]] != ['ok', 'invalid', 'ok', 'ok']:
+        raise tlc.MachineryError('selftest base trace is not ok/invalid/ok/ok: %r'
+                                 % [l['out'] for l in base['lines'][1:]])
+
+    def corrupt(name, line, expect, fn):
+        t = copy.deepcopy(base)
+        t['tid'] = name
+        fn(t['lines'][line])
+        return t, line, expect
+    cases = [
+        (base, None, None),
+        corrupt('accepted->invalid', 1, 'C19.accept', lambda l: l.update(out='invalid')),
+        corrupt('rejected->ok', 2, 'C19.reject', lambda l: l.update(out='ok')),
+        corrupt('accepted->exception', 1, 'C19.noCrash', lambda l: l.update(out='exc', exc='ValueError')),
+        corrupt('stored cpu 100%->400%', 1, 'C19.inv', lambda l: l['post']['res'][0].update(cpu=[400, '%'])),
+        corrupt('stored memory 1G->2G', 3, 'drift.step', lambda l: l['post']['res'][0].update(memory=[2, 'G'])),
+    ]
+    verdicts, _ = rc.validate([c[0] for c in cases])
+    problems = []
+    by = collections.defaultdict(dict)
+    for v in verdicts:
+        by[v['tid']][v['i']] = set(v['fail'])
+    if any(by[base['tid']].values()):
+        problems.append('uncorrupted trace has failures %r' % dict(by[base['tid']]))
+    for t, line, expect in cases[1:]:
+        got = by[t['tid']].get(line, set())
+        ctx.log('corruption %-24s line %d -> %s' % (t['tid'], line, sorted(got)))
+        if expect not in got:
+            problems.append('corruption %r: expected %s, got %s' % (t['tid'], expect, sorted(got)))
+    problems += selftest_util.run_mutants(ctx, PROP)
+    for p in problems:
+        print('SELFTEST-FAILURE %s: %s' % (PROP, p))
+    print('SELFTEST %s: %s' % (PROP, 'binding demonstrated' if not problems else 'NOT binding'))
+    return 2 if problems else 0
